@@ -872,17 +872,25 @@ struct World
         }
         else if (op == "ACC")
         {
-            // ACC <class-id> <method-id> <arg> x<mem>
+            // ACC <class-id> <method-id> <arg> <arg2> x<mem>
             Bytes mem(B(0));
             unsigned long long ret = 0;
             int hasRet = 0;
-            bool ok = accDispatch(static_cast<int>(N(0)), static_cast<int>(N(1)), mem, static_cast<unsigned long long>(N(2)), ret, hasRet);
+            bool ok = accDispatch(static_cast<int>(N(0)), static_cast<int>(N(1)), mem, static_cast<unsigned long long>(N(2)), static_cast<unsigned long long>(N(3)), ret, hasRet);
             if (!ok)
                 out << "A ?\n";
             else if (hasRet)
                 out << "A " << hex(mem) << " " << ret << "\n";
             else
                 out << "A " << hex(mem) << "\n";
+        }
+        else if (op == "DEF")
+        {
+            Bytes b;
+            if (accDefault(static_cast<int>(N(0)), b))
+                out << "A " << hex(b) << "\n";
+            else
+                out << "A ?\n";
         }
         else
             out << "UNKNOWN-OP " << op << "\n";
